@@ -1,12 +1,16 @@
 #!/bin/bash
 # tools/run_seed.sh <seed dir name> <property> [tier] : apply a stored seed to /repo, run the check, undo it straight afterwards.
-# patch.diff is relative to the pinned snapshot; when a later fix: commit touches the same lines, patch.rebased.diff
-# (the same change re-expressed on the fixed tree) is used instead.
+# patch.diff is relative to the commit the seed was made on; when a later fix: commit touches the same lines, patch.rebased.diff
+# (the same change re-expressed on the fixed tree) is used instead. The evidence file of the property is saved and restored:
+# committed evidence must come from runs on the unchanged tree only.
 D=/verif/seeded/$1; P=$2; T=${3:-quick}
 cd /repo && git status --short | grep -q . && { echo "/repo not clean"; exit 2; }
 if git apply --check $D/patch.diff 2>/dev/null; then git apply $D/patch.diff; USED=patch.diff
 elif [ -f $D/patch.rebased.diff ] && git apply --check $D/patch.rebased.diff 2>/dev/null; then git apply $D/patch.rebased.diff; USED=patch.rebased.diff
 else echo "seed $1: no patch applies to /repo HEAD"; exit 2; fi
+cp /verif/evidence/$P.json /tmp/evidence_keep_$P.json 2>/dev/null
 cd /verif && ./check $P --tier $T > /tmp/seedrun_$1_$P.log 2>&1; RC=$?
+cp /verif/evidence/$P.json /tmp/seed_evidence_$1_$P.json 2>/dev/null
+[ -f /tmp/evidence_keep_$P.json ] && mv /tmp/evidence_keep_$P.json /verif/evidence/$P.json
 git -C /repo checkout -q -- . ; git -C /repo status --short
 echo "seed $1 ($USED) vs $P ($T): exit $RC"; grep -E 'VIOLATION|KNOWN|status=' /tmp/seedrun_$1_$P.log | head -4
